@@ -95,7 +95,9 @@ func runC11(res *lib.Result, tier string, seed int64, args []string) error {
 				continue
 			}
 			if o.name == "self" {
-				continue // the implicit parameter: the server resolves it to the table the method belongs to (documented)
+				// the implicit parameter: the server resolves it to the table the method belongs to (documented); an explicitly
+				// declared self inside a colon method is treated the same way — recorded under C05-K3, not renamed here
+				continue
 			}
 			newName := freshLike(o.name, src)
 			if newName == "" {
